@@ -216,6 +216,12 @@ EvalRule(r) ==
            THEN <<Out(r, "C01.text_parses_to_reference_tree",
                       IF r.rule.head.k = "basic" /\ Len(r.rule.head.a.args) = 1 /\ r.rule.head.a.args[1] = r.exp THEN OkT
                       ELSE BadT([note |-> "the parser groups the head term differently from the mini-gringo grammar", reference |-> r.exp]), "")>>
+           ELSE <<>>) \o
+          (IF "exprule" \in DOMAIN r
+           THEN <<Out(r, "C01.text_parses_to_reference_tree",
+                      IF r.rule.head = r.exprule.head /\ r.rule.body = r.exprule.body THEN OkT
+                      ELSE BadT([note |-> "the parser reads the rule differently from the mini-gringo grammar (head kind, sign of a literal, relation, separator)",
+                                 reference |-> r.exprule]), "")>>
            ELSE <<>>)
      ELSE <<Out(r, "C08.mu_vs_tau", HTEquiv(gm, gt, <<>>), ""),
             Out(r, "C08.mu_is_natural_or_tau_star", IF muIsOne THEN OkT ELSE BadT([note |-> "mu returned neither the natural translation nor tau*"]), "")>>
